@@ -55,6 +55,7 @@ CHECKS = {
     "C03": {
         "runs": [
             R(LAB, "^TestC03Tunnel", {"checks": 2500, "timeout": 900}, {"checks": 2400, "shards": 8, "timeout": 3000}, race=True),
+            R(LAB, "^TestC03Aged", {"checks": 6, "timeout": 900}, {"checks": 40, "shards": 4, "timeout": 3000}),
         ],
     },
     "C13": {
@@ -156,6 +157,8 @@ RULES = {
     "C03": "rapid draws a tunnel script: routing direct / upstream HTTP / upstream HTTPS / upstream SOCKS5 / custom ConnectFunc / HTTP/1.1 Upgrade (GET -> 101), proxy listener plain or TLS; per direction: early data (client: coalesced with the request head in one segment; target: sent before reading anything or, for Upgrade, in the same write as the 101; upstream proxy: part of the early bytes in the same write as its own 200 / SOCKS reply), 0-5 writes with sizes from {1, 2, 100, 1000, 4095-4097, 16384, 32767-32769, 65536, 100000}, "
            "gates (continue only after the peer has received everything written so far) that vary the interleaving of the two copy directions, and 0-2 writes made after the peer's end-of-stream was seen; half-close order client-first / target-first / simultaneous / client closes the socket. Each case gets a fresh target listener. "
            "Oracle: byte i of direction d is a fixed function of (case, d, i); both endpoints verify the stream incrementally (first bad offset), count bytes, require end-of-stream after the last byte, require writes after the peer's half-close to arrive, and require the target to observe EOF at the end; bound 15 s with one retry. "
+           "Further dimensions: TLS 1.2 legs whose writer coalesces the last record with close_notify, a ConnectFunc stream that returns its last bytes together with io.EOF, a target that starts reading late, several MiB per write in the thorough tier. "
+           "A second run (TestC03Aged, own process) shortens the forced-close period of half-closed tunnels from a minute to 1.2 s through a harness-only setter and lets every tunnel grow older than that before its (small) traffic starts: the period counts from the first half-close, not from the start of the tunnel. "
            "Non-trivial = early data present, or a direction above 32 KiB, or flow continuing after a half-close. Distinct = distinct scripts.",
     "C13": "(1) model-based history in the fault laboratory: rapid draws 1-4 batches of 1-5 steps; the steps of a batch run concurrently on their own connections; a step is a C12 exchange (any route / method / fault, with follow-up request) or a special path: client abort during upload, client abort during download (origin gated), Upgrade -> 101 tunnel, HTTP/1.0 CONNECT, connect-and-close, half a request head. After every batch the harness waits until each proxy has accepted every connection opened and listener_cx_active is 0, then gathers the four registries: every http_requests_in_flight{method} series is 0; "
            "http_requests_total{method,code} grew by exactly the requests whose head was sent, with the code the client was sent (requests that saw no status line may land on any code); listener_cx_total grew by the connections opened; at the end, after closing idle upstream connections, dialer_cx_active is 0 and dialer_cx_total / dialer_errors_total equal the successful / failed dials of the dial log. "
